@@ -38,10 +38,15 @@ def f10(spec, kind, message):
 KNOWN = {"F10-single-tag-vocabulary": f10}
 
 
-def make_case(task):
+def make_case(task, big=False):
     @st.composite
     def case(draw):
-        if task == "clip_classification":
+        if big:
+            spec = draw(evalgen.detection_inputs(big_vocab=True, clip_tags=task.startswith("clip_"), same_events=task == "sound_event_classification", max_clips=5))
+            if task.startswith("clip_"):
+                for c in spec["clips"]:
+                    c["anns"], c["preds"] = [], []
+        elif task == "clip_classification":
             spec = draw(evalgen.detection_inputs(min_vocab=1, max_vocab=6, clip_tags=True, max_clips=9))
             for c in spec["clips"]:
                 c["anns"], c["preds"] = [], []
@@ -147,6 +152,16 @@ def check_distinct(ctx, spec, fs, where):
         ctx.fail(f"{where}: metric terms are not pairwise distinct: {labels}", spec, labels, None, kind="duplicate_terms")
 
 
+def expect_either(ctx, spec, fs, label, values, where, tol=1e-6):
+    """the metric must equal one of the admissible conventions (not merely lie between them)"""
+    vals = [v for l, v in features(fs) if l == label]
+    if len(vals) != 1:
+        ctx.fail(f"{where}: expected exactly one metric termed '{label}', found {len(vals)}", spec, [l for l, _ in features(fs)], label, kind="metric_missing")
+        return
+    if not any(abs(vals[0] - x) <= tol for x in values):
+        ctx.fail(f"{where}: metric '{label}' is {vals[0]}, the independently computed value is {sorted(set(values))} (classes without positives counted as 0 / skipped)", spec, vals[0], sorted(set(values)), kind="metric_value")
+
+
 def expect_band(ctx, spec, fs, label, band, where, tol=1e-9):
     vals = [v for l, v in features(fs) if l == label]
     if len(vals) != 1:
@@ -246,8 +261,7 @@ def check(spec, ctx):
             clip_scores[ci] = ce.score
         zero, skip, full = macro_ap_conventions(Y, S)
         if skip is not None:
-            vals = sorted([zero, skip])
-            expect_band(ctx, spec, ev.metrics, "Mean Average Precision", (vals[0], vals[1]) if not full else (skip, skip), "evaluation (macro over vocabulary classes)", tol=1e-6)
+            expect_either(ctx, spec, ev.metrics, "Mean Average Precision", [zero, skip], "evaluation (macro over vocabulary classes)")
             ctx.label("map_decisive" if full else "map_convention_band")
         tie_free = skip is not None
         y_true = [tuple(r) for r in Y.tolist()]
@@ -291,8 +305,7 @@ def check(spec, ctx):
             for r, i in enumerate(lab):
                 Y[r, y_true[i]] = 1
             zero, skip, full = macro_ap_conventions(Y, S[lab])
-            vals = sorted([zero, skip])
-            expect_band(ctx, spec, ev.metrics, "Mean Average Precision", (vals[0], vals[1]) if not full else (skip, skip), "evaluation (labelled items only)", tol=1e-6)
+            expect_either(ctx, spec, ev.metrics, "Mean Average Precision", [zero, skip], "evaluation (labelled items only)")
             ctx.label("map_decisive" if full else "map_convention_band")
     # evaluation score = mean of the non-null clip scores
     valid = [s for s in clip_scores.values() if s is not None]
@@ -347,4 +360,7 @@ def check(spec, ctx):
                 ctx.fail("match score/affinity changes through AOEF save/load", spec, [m.score, m.affinity], [bm.score, bm.affinity], kind="aoef_metrics")
 
 
-SUBS = [Sub(f"metrics_{t}", check, strategy=make_case(t), quick=1200, thorough=30000, min_nontrivial=0.02) for t in TASKS]
+SUBS = [Sub(f"metrics_{t}", check, strategy=make_case(t), quick=1200, thorough=30000, min_nontrivial=0.02) for t in TASKS] + [
+    Sub(f"big_vocabulary_{t}", check, strategy=make_case(t, big=True), quick=60, thorough=1500, min_nontrivial=0.0)
+    for t in ("sound_event_detection", "clip_classification", "sound_event_classification")
+]
